@@ -1,5 +1,5 @@
 """C02 — parsing always terminates with a verdict."""
-import tempfile
+import tempfile, subprocess
 from prop_common import *
 import pyref
 
@@ -46,7 +46,40 @@ def extra_inputs(ctx):
     return out
 
 
+WITNESS_CODE = r"""
+import sys
+sys.path.insert(0, sys.argv[1])
+from sievelib import commands
+from sievelib.parser import Parser
+class FooCommand(commands.ActionCommand):
+    args_definition = [{"name": "test", "type": ["test"], "required": True}]
+commands.add_commands(FooCommand)
+try:
+    print("returned", Parser().parse("if true { foo true { } }"))
+except Exception as e:
+    print("raised", type(e).__name__)
+"""
+
+
+def unsafe_table_witness():
+    """the theorem's hypothesis TableSafe is necessary: with a registered *action* that takes a test the model raises
+    (C02.unsafe_table_crashes); replayed on the real code in a subprocess (the registry is global).  Informational."""
+    try:
+        p = subprocess.run(["/venv/bin/python", "-W", "ignore", "-c", WITNESS_CODE, REPO], capture_output=True, text=True, timeout=60)
+        return p.stdout.strip().splitlines()[-1] if p.stdout.strip() else "no output: " + p.stderr[-200:]
+    except Exception as e:  # noqa
+        return "not run: %r" % (e,)
+
+
+def deep_model_search(depth, cap):
+    """liveness-pruned exhaustive search over an 18-token structural vocabulary for model outcomes `crash` / `hang`
+    (none exists if the theorem holds); any hit is replayed on the real parser"""
+    import deepsearch
+    return deepsearch.search(depth, cap)
+
+
 def run(ctx):
+    ctx.notes.append("unsafe-table witness on the real code: " + unsafe_table_witness())
     rec, info = parser_records(ctx)
     viol = []
     for t, a, y, m in zip(rec.text, rec.impl, rec.yields, rec.meta):
@@ -72,6 +105,14 @@ def search(ctx, broken):
         bad = oracle(t, a, y, m)
         if bad:
             out.append({"input_hex": t.hex(), "input": t.decode("latin-1"), "what": bad})
+    try:
+        for t, model_ans, impl_ans in deep_model_search(11, 1500000):
+            bad = oracle(t, impl_ans, 0, {})
+            if bad:
+                out.append({"input_hex": t.hex(), "input": t.decode("latin-1"), "what": bad, "model": model_ans[:100]})
+    except Exception:  # noqa
+        import traceback
+        traceback.print_exc()
     for b in broken:
         d = b.get("detail")
         if isinstance(d, dict) and "input_hex" in d:
